@@ -83,13 +83,29 @@ def factory(ctx: Ctx):
     ci = ctx.repo.cls(LY.MCM, "_BaseUnconditionalCubeCounts")
     fac = ctx.repo.lookup(ci, "factory")
     body = SUMMARIZER.summarize(fac.node)
-    ok = True
-    args = None
-    for _g, leaf in strip_ifexp_paths(body):
-        if isinstance(leaf, ast.Call) and len(leaf.args) >= 2:
-            args = u(leaf.args[1])
     want = "cube.counts_with_missings[cls._slice_idx_expr(cube, slice_idx)]"
-    ctx.ob("baseline-source", f"{LY.MCM}::_BaseUnconditionalCubeCounts.factory", args, want, args == want, "the baseline is computed from the counts INCLUDING missing elements, restricted to this slice")
+    n_leaves = 0
+    for guards, leaf in strip_ifexp_paths(body):
+        if isinstance(leaf, ast.Call) and len(leaf.args) >= 2 and not (isinstance(leaf.func, ast.Name) and leaf.func.id.startswith("__")):
+            n_leaves += 1
+            tag = " & ".join(("" if pol else "not ") + u(g)[:50] for g, pol in guards if "dimension_types[-2:]" not in u(g) and "dimension_types ==" not in u(g))
+            ctx.check_expr("baseline-source", f"{LY.MCM}::_BaseUnconditionalCubeCounts.factory" + (f" [{tag}]" if tag else ""), leaf.args[1], [want],
+                           "the baseline is computed from the counts INCLUDING missing elements, restricted to this slice by the shared slice-index expression (selected plane of an MR tabs dimension)")
+            # must-pass-through: the table of a 3-D cube is selected by the shared slice-index expression (which picks
+            # the SELECTED plane of a multiple-response tabs dimension); a bare `[slice_idx]` keeps all three planes
+            subs = [n for n in ast.walk(leaf.args[1]) if isinstance(n, ast.Subscript) and "counts_with_missings" in u(n.value)]
+            for sub in subs:
+                idx = u(sub.slice)
+                where = f"{LY.MCM}::_BaseUnconditionalCubeCounts.factory [{u(sub)[:70]}]"
+                if "_slice_idx_expr" in idx:
+                    ctx.held("baseline-source.slice-restriction", where, idx, "cls._slice_idx_expr(cube, slice_idx)")
+                elif idx == "slice_idx":
+                    ctx.violated("baseline-source.slice-restriction", where, idx, "cls._slice_idx_expr(cube, slice_idx)",
+                                 "the numerator (column proportion) is restricted to respondents who SELECTED the tabs item; a baseline over all planes of the tabs dimension compares it with a different population")
+                else:
+                    ctx.undecided("baseline-source.slice-restriction", where, f"table selected by {idx}", "cls._slice_idx_expr(cube, slice_idx)")
+    ctx.count("baseline constructor leaves", n_leaves)
+    ctx.require_min("baseline constructor leaves", 1)
     som = slice_measures_obj(ctx)
     cm = next(iter(ctx.flow.member_val(som, "_cube_measures").objs))
     v = ctx.flow.member_val(cm, "unconditional_cube_counts")
